@@ -328,9 +328,9 @@ def processFrame (e : EP) (f : Frame) (ignoreBind : Bool) : EP × List Ev × Opt
     | none => (e.enqFrame (.reset fid), [], none)
     | some (.bindRequested req) => ({ e with flows := erase e.flows fid }, [.bindDone req .accepted], none)
     | some (.requested req) =>
-      -- the oneshot sender is dropped: the requester sees `Closed`
-      let e := { e with flows := erase e.flows fid, opens := e.opens.filter (·.req ≠ req) }
-      (e.enqFrame (.reset fid), [.openDone req .closed], none)
+      -- the oneshot sender is dropped: the requester (if it has not given up) sees `Closed`
+      (({ e with flows := erase e.flows fid, opens := e.opens.filter (·.req ≠ req) } : EP).enqFrame (.reset fid),
+       if e.opens.any (·.req == req) then [.openDone req .closed] else [], none)
     | some (.established i) => (e.modObj i (fun o => { o with senderAlive := false }), [], none)
   | .reset fid =>
     let (e, evs) := closeFlow e fid true
@@ -351,7 +351,7 @@ def processFrame (e : EP) (f : Frame) (ignoreBind : Bool) : EP × List Ev × Opt
   | .bind fid bt port host =>
     if e.opts.bindCap = 0 then (e.enqFrame (.reset fid), [], none)
     else if ignoreBind then (e, [], none)
-    else if !e.muxAlive then (e, [], none)                                   -- send fails: warning only
+    else if !e.muxAlive then (e.enqFrame (.reset fid), [], none)             -- send fails: the `BindRequest` is dropped and rejects itself
     else (offerBind e { fid := fid, bt := bt, host := host, port := port }, [], none)
   | .datagram fid port host d =>
     if !e.muxAlive then (e, [], none)          -- receiver gone: the datagram is dropped
@@ -600,8 +600,9 @@ def appWrite (e : EP) (h : Nat) (d : Bytes) : EP × Res :=
   match e.handleObj h with
   | none => (e, .badHandle)
   | some (i, o) =>
-    if o.finishSent then (e, .brokenPipe)
-    else if d.isEmpty then (e, .wrote 0)
+    -- a call that completes leaves no writer waiting (`parked` = a write call is pending)
+    if o.finishSent then (e.modObj i (fun o => { o with parked := false }), .brokenPipe)
+    else if d.isEmpty then (e.modObj i (fun o => { o with parked := false }), .wrote 0)
     else if o.credit = 0 then (e.modObj i (fun o => { o with parked := true, woken := false }), .pending)
     else if e.outClosed then (e.modObj i (fun o => { o with credit := o.credit - 1, parked := false }), .brokenPipe)
     else ((e.modObj i (fun o => { o with credit := o.credit - 1, parked := false })).enqFrame (.push o.fid d), .wrote d.length)
